@@ -462,7 +462,7 @@ RULES.append(i9)
 
 @rule("MC", doc="must-call census: no function of this property's files has gained an early exit in front of work it always did (every crate-local call that lay on all paths to a normal return in the reviewed tree still does)")
 def mc(ctx):
-    C.must_call_census(ctx, ctx.lib(), ['src/egraph/add.rs', 'src/egraph/mod.rs', 'src/lang.rs'])
+    C.must_call_census(ctx, ctx.lib(), ['src/egraph/add.rs', 'src/egraph/mod.rs', 'src/lang.rs', 'src/egraph/find.rs'])
 
 
 RULES.append(mc)
